@@ -50,3 +50,35 @@ Definition api_c07_shape (_ : val) : val :=
       VL [ofB (sh_main_reraise s); ofB (sh_fusion_reraise s); ofB (sh_circ_reraise s); ofB (sh_circ_cont s);
           ofB (sh_fasta_after_loop s); ofB (sh_invalid_guarded s); ofB (sh_acc_guarded s)];
       ofS (sh_tally_keys s)].
+
+(* ------------------------------------------------------------------ parser stream *)
+From MoPep Require Import Model.ParserLoop Gen.ParserShape.
+
+(* row: [0; reason] | [1; [record ids]] | [2; [classes of the mro]; unknown key] *)
+Definition c07_prow (v : val) : prow :=
+  let k := getZ (argn 0 v) in
+  if k =? 0 then PSkip (getZ (argn 1 v))
+  else if k =? 1 then POk (getS (argn 1 v))
+  else PExc (getS (argn 1 v)) (getB (argn 2 v)).
+
+(* which: 0 the shape read from the source, 1 the repaired / documented shape;  tool: 0 star 1 fc 2 arriba 3 vep *)
+Definition c07_pshape (which tool : Z) : pshape :=
+  if which =? 1 then (if tool =? 3 then shape_vep else shape_fusion)
+  else if tool =? 0 then source_pshape_star else if tool =? 1 then source_pshape_fc
+  else if tool =? 2 then source_pshape_arriba else source_pshape_vep.
+
+(* [which; tool; skip_failed; [row...]] -> [exception (0 none, 1 conversion, 2 ranking the keys);
+   [] | [[record ids]] (GVF); [] | [[read; processed; [skip reasons in order]]] (summary)] *)
+Definition api_c07_parser_run (v : val) : val :=
+  let o := prun (c07_pshape (getZ (argn 0 v)) (getZ (argn 1 v))) (getB (argn 2 v)) (map c07_prow (getL (argn 3 v))) in
+  VL [VZ (match o_exc o with None => 0 | Some PEConv => 1 | Some PERank => 2 end);
+      ofOpt (option_map ofS (o_gvf o));
+      ofOpt (option_map (fun t => match t with (a, b, c) => VL [VZ a; VZ b; ofS c] end) (o_tally o))].
+
+(* per tool: [source shape is the repaired/documented one; source shape is a modelled one] *)
+Definition api_c07_parser_shapes (_ : val) : val :=
+  VL (map (fun t => let s := c07_pshape 0 t in
+                    VL [ofB (pshape_eqb s (c07_pshape 1 t));
+                        ofB (pshape_eqb s (c07_pshape 1 t) ||
+                             (if t =? 3 then pshape_eqb s shape_vep_orig else pshape_eqb s shape_fusion_orig))])
+          [0; 1; 2; 3]).
